@@ -12,7 +12,7 @@ EXPLANATION = (
     "nothing with a write effect on the stores precedes the success of validation; (R3) every failure exit of "
     "validation passes through the discard routines; (R4) a dropped Session rolls back (Drop impl reaching the "
     "rollback routines); (R5) TxInfo.state only moves Active->Committed/Aborted; (R6) the RDF transaction buffer is applied "
-    "in issue order (no reordering combinator between the buffer and the apply loop); (R7) the session's direct mutators "
+    "in issue order (no reordering combinator between the buffer and the apply loop); (R8) MERGE returns a candidate from the label index only after a successful version-chain lookup of it; (R7) the session's direct mutators "
     "create versions tagged with the context of get_transaction_context; (R1r) RDF operators touch the committed triple set "
     "directly only when no transaction is open. R1c also: every path through the undo routine looks at each versioned structure; (R3b) the success arm of Session::commit applies the RDF buffer and advances the store clock on every path; (R3c) Session::rollback discards in both stores before it marks the transaction aborted. "
     "insert_in_tx / remove_in_tx append to the buffer on every path (R6 always-buffers). "
@@ -302,6 +302,39 @@ def run(ctx):
                what="Session::%s does not create its version through LpgStore::%s with the (epoch, tx id) of "
                     "get_transaction_context: the write is not tagged with the transaction and rollback cannot find it" % (n, acc),
                where=f.loc())
+
+    # ---- R8 MERGE matches only nodes that passed the version-chain check
+    # discard_uncommitted_versions removes the version chains of a rolled-back transaction; the single-version side tables
+    # (label index, property columns) keep its entries (known finding R1). That stays unobservable only as long as every
+    # reader that takes candidates from those tables loads the node through the version chain before it believes it.
+    # MergeOperator::find_matching_node takes its candidates from the label index: each `Some(id)` it returns must be
+    # dominated by a successful get_node* of that candidate.
+    fm = P.fn("MergeOperator::find_matching_node")
+    mx = FlowCx(P, fm)
+    def _flat(z):
+        if isinstance(z, str):
+            yield z
+        elif isinstance(z, (set, frozenset, list, tuple)):
+            for y in z:
+                yield from _flat(y)
+    nret = 0
+    for bi, b in enumerate(fm.blocks):
+        if b["cl"]:
+            continue
+        for pl, rv, ln in b["s"]:
+            if pl == [0] and rv[0] == "agg" and rv[1] == "adt" and rv[2].endswith("option::Option") and rv[3] == "Some":
+                nret += 1
+                live = False
+                for x in mx.facts_at(bi):
+                    pos = (x[0] == "variant" and x[2] == "Some") or (x[0] == "call" and x[2] is True) or (x[0] == "bool" and x[1] is True)
+                    if pos and any(t_.startswith("call:LpgStore::get_node") and not t_.startswith("call:LpgStore::get_node_property") for t_ in _flat(x[1:])):
+                        live = True
+                ctx.ob("R8", "MergeOperator::find_matching_node#match[%d]" % nret, live,
+                       what="MergeOperator::find_matching_node can return a candidate taken from the label index / property columns without "
+                            "having loaded it through the version chain (get_node*): the index and column entries of a rolled-back "
+                            "transaction survive the rollback, so MERGE matches a node that does not exist and creates nothing",
+                       where=fm.loc(ln))
+    ctx.floor("R8", nret, 1, "match returns of MergeOperator::find_matching_node")
 
     # ---- R4 dropped session
     drop = None
